@@ -84,7 +84,7 @@ func wellFormedFile(text string) string {
 }
 
 func randText(r *rand.Rand, maxLen int) string {
-	alpha := []string{"a", "b", "Z", "0", "9", ":", " ", "#", "é", "ü", "漢", "\u00a0", "\u2003", "\u3000", "-", "_", "\\", "/", "@", "."}
+	alpha := []string{"a", "b", "Z", "0", "9", ":", " ", "#", "é", "ü", "漢", "\u00a0", "\u2003", "\u3000", "-", "_", "\\", "/", "@", ".", "%", "%s", "%d", "%USERPROFILE%"}
 	n := r.Intn(maxLen + 1)
 	var sb strings.Builder
 	for sb.Len() < n {
